@@ -578,7 +578,7 @@ def r6r7_primitives(ctx, P, R6="C01.R6", R7="C01.R7"):
             continue
         leaves = [(c, l) for c, l in ite_leaves(e) if l[0] == "agg" and l[2] == "Some" and _consistent(c)]
         ctx.need(len(leaves) >= 2, R6, f"{nm}: Some(..) return paths")
-        bad6, bad7 = [], []
+        bad6, bad7, bad7b = [], [], []
         for conds, leaf in leaves:
             v = leaf[4][0]
             if nm == "bump_up":
@@ -606,6 +606,20 @@ def r6r7_primitives(ctx, P, R6="C01.R6", R7="C01.R7"):
             n7 += 1
             if not fit(conds, vals):
                 bad7.append((conds, leaf))
+            elif nm.startswith("bump_prepare"):
+                # the range that is handed out is the range that was measured: `size > end' - start'` (false) with
+                # exactly the returned start' / end' - trimming a bound *after* the test can shrink the range below
+                # layout.size() when the size is not a multiple of the alignment
+                def measured(c):
+                    c = _sc(c)
+                    if c[0] == "bin" and c[1] in ("Gt", "Lt"):
+                        for x in (c[2], c[3]):
+                            x = _sc(x)
+                            if x[0] == "call" and x[1].split("::")[-1] == "wrapping_sub" and len(x[2]) == 2:
+                                return False if (_sc(x[2][0]) == _sc(en) and _sc(x[2][1]) == _sc(st)) else None
+                    return None
+                if not _cond_true(conds, measured):
+                    bad7b.append((conds, leaf))
         for conds, leaf, okp, okn in bad6[:3]:
             what = ("the returned block" if not okp else "") + (" and " if not okp and not okn else "") + ("the new position" if not okn else "")
             ctx.inst(R6, b.path, False, f"a success path returns {show(leaf)[:140]} where {what} is neither produced by a covering aligner nor "
@@ -615,6 +629,14 @@ def r6r7_primitives(ctx, P, R6="C01.R6", R7="C01.R7"):
             ctx.inst(R7, b.path, False, f"a success path returns {show(leaf)[:120]} without a fit comparison against the range bound: a block "
                      "beyond the chunk (or from a dummy chunk) would be handed out; path: " +
                      " & ".join(f"{show(c)[:40]}={k}" for c, k in conds)[:300], where=b.where(), site="no fit test")
+        for conds, leaf in bad7b[:2]:
+            ctx.inst(R7, b.path, False, f"a success path returns {show(leaf)[:120]} but the fit test on that path measured a different "
+                     "range: a bound is trimmed after the test, so for a size that is not a multiple of the alignment the returned range "
+                     "can be smaller than layout.size() (down: the block is then placed below the free space)", where=b.where(),
+                     site="fit test on the returned range")
+        if nm.startswith("bump_prepare"):
+            ctx.inst(R7, b.path, not bad7b, f"{len(leaves)} Some(..) paths: the measured range is the returned range", where=b.where(),
+                     site="all paths measure the returned range")
         ctx.inst(R6, b.path, not bad6, f"{len(leaves)} consistent Some(..) paths: every one aligns (or carries the elision predicate)", where=b.where(), site="all paths aligned")
         ctx.inst(R7, b.path, not bad7, f"{len(leaves)} consistent Some(..) paths: every one passed a fit test", where=b.where(), site="all paths fit-tested")
     ctx.floor(R6, "success paths of the bump primitives", n6, 20)
